@@ -6,6 +6,8 @@
   * `paras`      — a text split into paragraphs: maximal runs of non-empty lines.
   * `governing`  — which `virtualdomains` entry applies to an address, as qmail-send.9 describes it
                    (exact domain, else the longest `.suffix` wildcard, else the catch-all).
+  * `namedRecipient` — the address a bounce must name: locals first, then virtual users, then
+                   virtual domains (the order of `rewrite()`).
   * `Sanit`      — "the failure text is shown": same bytes, except that an LF may appear as '/'.
 -/
 import Nq.Basic
@@ -81,17 +83,49 @@ def domainPart (a : Bytes) : Option Bytes :=
   | some s => some (s.drop 1)
   | none => none
 
-/-- the address a bounce must name for the (rewritten) recipient `recip`: the governing entry's
-`prepend-` removed if it is there, otherwise the address as it is -/
-def namedRecipient (es : List (Bytes × Bytes)) (recip : Bytes) : Bytes :=
+/-- `d` is listed in control/locals (case-insensitive): qmail-send never treats it as virtual -/
+def isLocal (ls : List Bytes) (d : Bytes) : Bool := ls.any (fun l => lower l == lower d)
+
+/-- every way to cut `a` into `(before, rest)` with `rest` non-empty, shortest `before` first -/
+def splits : Bytes → List (Bytes × Bytes)
+  | [] => []
+  | c :: r => ([], c :: r) :: (splits r).map (fun x => (c :: x.1, x.2))
+
+/-- virtual *user* entries (`user@domain:prepend`, rewritten to `prepend-user@domain`): the first cut
+`recip = prepend ++ "-" ++ rest` such that `rest` has an entry whose non-empty prepend is exactly
+`prepend`; the bounce must name `rest` -/
+def userCut (es : List (Bytes × Bytes)) (x : Bytes × Bytes) : Option Bytes :=
+  match x.2 with
+  | 45 :: rest => match entryFor es rest with
+    | some p => if !p.isEmpty && p == x.1 then some rest else none
+    | none => none
+  | _ => none
+
+def userSplit (es : List (Bytes × Bytes)) (recip : Bytes) : Option Bytes :=
+  (splits recip).findSome? (userCut es)
+
+/-- the address a bounce must name for the (rewritten) recipient `recip`:
+a recipient at a domain listed in `locals` was never rewritten — as it is; otherwise a virtual-user
+prefix is removed; otherwise the governing domain entry's `prepend-` is removed if it is there -/
+def namedRecipient (ls : List Bytes) (es : List (Bytes × Bytes)) (recip : Bytes) : Bytes :=
   match domainPart recip with
   | none => recip
-  | some d => match governing es d with
-    | some p => if !p.isEmpty && (p ++ [45]).isPrefixOf recip then recip.drop (p.length + 1) else recip
-    | none => recip
+  | some d =>
+    if isLocal ls d then recip else
+    match userSplit es recip with
+    | some rest => rest
+    | none => match governing es d with
+      | some p => if !p.isEmpty && (p ++ [45]).isPrefixOf recip then recip.drop (p.length + 1) else recip
+      | none => recip
 
 /-- first line of a recipient paragraph: `<` address with LF shown as `_` `>:` LF -/
 def recipLine (addr : Bytes) : Bytes :=
   60 :: (addr.map (fun c => if c = LF then 95 else c) ++ [62, 58, LF])
+
+/-- the i-th paragraph begins with the line naming the i-th failed recipient (and there are equally many) -/
+def NamedInOrder (ls : List Bytes) (es : List (Bytes × Bytes)) : List (Bytes × Bytes) → List Bytes → Prop
+  | [], [] => True
+  | f :: fs, p :: ps => recipLine (namedRecipient ls es f.1) <+: p ∧ NamedInOrder ls es fs ps
+  | _, _ => False
 
 end Nq.BounceSpec
